@@ -808,8 +808,14 @@ impl Property for C13 {
         let fmt_ = prop_oneof![Just(Fmt::Full), Just(Fmt::Compact), Just(Fmt::Pretty), Just(Fmt::Json)];
         let opts = (any::<bool>(), proptest::bool::weighted(0.8), any::<bool>(), any::<bool>(), any::<bool>(), any::<bool>(), proptest::bool::weighted(0.25), any::<bool>(), prop_oneof![3 => Just(0u8), 2 => 0u8..16])
             .prop_map(|(target, level, thread_ids, thread_names, file, line, ansi, time, span_events)| Opts { target, level, thread_ids, thread_names, file, line, ansi, time, span_events });
-        let ev = (1u8..=5, 0u8..2, any::<i64>(), "[a-z0-9]{1,8}").prop_map(|(level, target, k, s)| Ev { level, target, k, s });
-        let prog = (0u8..4, any::<u64>(), "[a-z]{1,6}", any::<i64>(), any::<bool>(), proptest::bool::weighted(0.25), proptest::collection::vec(ev, 1..5), proptest::option::weighted(0.4, (0u8..8, 0u8..3, -5i64..100)), proptest::option::weighted(0.3, 100i64..200), (proptest::bool::weighted(0.2), any::<bool>())).prop_map(|(depth, rid, who, n, flag, panic_first, events, late, late_again, (reenter, panic_in_span))| Prog { depth, rid, who, n, flag, panic_first, events, late, late_again, reenter, panic_in_span });
+        // string values: mostly plain, some with characters Debug has to escape (tab, ESC, DEL,
+        // quote, backslash) or non-ASCII ones; never a raw line break, as the property states
+        let text = |max: usize| {
+            let ch = prop_oneof![12 => proptest::char::range('a', 'z'), 3 => proptest::char::range('0', '9'), 2 => proptest::sample::select(vec!['\t', '\u{1b}', '\u{7f}', '"', '\\', '\u{e9}', '\u{1f980}', ' ', '='])];
+            proptest::collection::vec(ch, 1..=max).prop_map(|v| v.into_iter().collect::<String>())
+        };
+        let ev = (1u8..=5, 0u8..2, any::<i64>(), text(8)).prop_map(|(level, target, k, s)| Ev { level, target, k, s });
+        let prog = (0u8..4, any::<u64>(), text(6), any::<i64>(), any::<bool>(), proptest::bool::weighted(0.25), proptest::collection::vec(ev, 1..5), proptest::option::weighted(0.4, (0u8..8, 0u8..3, -5i64..100)), proptest::option::weighted(0.3, 100i64..200), (proptest::bool::weighted(0.2), any::<bool>())).prop_map(|(depth, rid, who, n, flag, panic_first, events, late, late_again, (reenter, panic_in_span))| Prog { depth, rid, who, n, flag, panic_first, events, late, late_again, reenter, panic_in_span });
         let maxt = tier.pick(4usize, 8usize);
         (fmt_, opts, w_strategy(), proptest::collection::vec(prog, 1..=maxt), proptest::option::weighted(0.08, (0u8..8, 0u8..8, 0i64..50)), proptest::option::weighted(0.15, any::<u8>()), proptest::bool::weighted(0.12))
             .prop_map(|(fmt, mut opts, writer, threads, shared, short, mutex)| {
@@ -831,7 +837,7 @@ impl Property for C13 {
     }
     fn assumptions(&self) -> Vec<String> {
         vec![
-            "field values contain no raw newlines (strings are [a-z0-9]+), as the property states".into(),
+            "field values contain no raw line breaks, as the property states (strings hold letters, digits, space, =, tab, ESC, DEL, quote, backslash, non-ASCII characters)".into(),
             "span context is demanded as each format documents it: full = name{fields} root->leaf; compact = the spans' fields root->leaf (no names in this snapshot); pretty = `in target::name with fields` leaf->root; json = `spans` array root->leaf".into(),
             "records of different threads are attributed by the thread that issued the write call; order is checked per thread only".into(),
         ]
